@@ -29,3 +29,18 @@ pub open spec fn join_nl(v: Seq<Seq<char>>) -> Seq<char> decreases v.len() {
 pub open spec fn strings_view(v: Seq<String>) -> Seq<Seq<char>> { Seq::new(v.len(), |i: int| v[i]@) }
 #[verifier::external_body]
 pub fn __join_newline(v: &Vec<String>) -> (r: String) ensures r@ == join_nl(strings_view(v@)) { v.join("\n") }
+// str::lines() collected: the document as the sequence of its lines (std's splitting at LF / CR LF is uninterpreted)
+pub uninterp spec fn str_lines(text: Seq<char>) -> Seq<Seq<char>>;
+pub open spec fn strs_view(v: Seq<&str>) -> Seq<Seq<char>> { Seq::new(v.len(), |i: int| v[i]@) }
+#[verifier::external_body]
+pub fn __lines_vec<'a>(text: &'a str) -> (r: Vec<&'a str>) ensures strs_view(r@) == str_lines(text@), r@.len() < usize::MAX { text.lines().collect() }
+#[verifier::external_body]
+pub fn __spaces(n: usize) -> (r: String) ensures r@ == Seq::new(n as nat, |i: int| ' ') { " ".repeat(n) }
+// derived Default of the two configuration structs: every key unset, no environment, no include lists
+#[verifier::external_body]
+pub fn __derived_default_TestCaseConfig() -> (r: TestCaseConfig)
+    ensures r.detached is None, r.environment@.dom() =~= Set::<String>::empty(), r.keep_crlf is None, r.output_stream is None,
+        r.skip_document_code is None, r.strip_ansi_escaping is None, r.timeout is None, r.wait is None
+{ unimplemented!() }
+#[verifier::external_body]
+pub fn __maker_clone(m: &OpaqueMaker) -> (r: OpaqueMaker) { unimplemented!() }
